@@ -226,10 +226,19 @@ def eval_measures(r, raws, edges, kws, be, rank=(), only=None):
                     continue
             if valid and not messy:
                 vs = [spk.SpikeTrain(c, e, is_sorted=True) for c, e in zip(canon, edges)]
+                vbefore = snap(vs)
                 try:
                     c_ = fn(vs, Reconcile=False, **kw)
                 except Exception as e:
                     c_ = "%s: %s" % (type(e).__name__, e)
+                if snap(vs) != vbefore:
+                    r.violation(ID, "modifies", be, "modifies.reconcile_off/%s/%s" % (name, be),
+                                dict(case, Reconcile=False), "inputs unchanged",
+                                [[type(s_.spikes).__name__, np.asarray(s_.spikes).tolist(),
+                                  s_.t_start, s_.t_end] for s_ in vs],
+                                "the call (with reconciliation switched off) changed the spike "
+                                "times or edges of a train passed to it", rank)
+                    continue
                 if not obs_close(a, c_, TOL):
                     r.violation(ID, "reconcile_off", be, "reconcile_off/%s/%s" % (name, be), case,
                                 a, c_, "result on already valid input changes when reconciliation "
